@@ -350,3 +350,81 @@ Example c15_outage_kinds :
   [Out RHang true; Out RHang false; Out RPrepare true; Out RPrepare false;
    Out RQuery true; Out RQuery false; Out RScan true; Out RScan false] = true.
 Proof. vm_compute. reflexivity. Qed.
+
+(* ------------------------------------------------------------------ the journal of the cache connection
+   c15_atomic (and with it every theorem above about [step]) rests on ONE fact about SQLite: the deferred
+   tx.Rollback() of copyDBIntoSQLite — and the recovery a new process runs when it opens the file — puts the
+   previous content back.  SQLite promises that for a connection that keeps a rollback journal in a file or
+   a write-ahead log (`PRAGMA journal_mode` = delete | truncate | persist | wal), not for journal_mode =
+   memory (gone with the process) and not for journal_mode = off ("ROLLBACK behaves in an undefined way").
+   Model/StorageJournal.v carries the connection's journal mode [j], its synchronous level [sy] and the way the
+   synchronisation ends early [i : IStmt | IKill | IPower] through the copy; what a roll-back leaves without
+   a usable journal is chosen by the environment ([mix]: an arbitrary function of how many rows the
+   transaction had written, the old and the pending content).  The journal mode and the synchronous level
+   of the connections the REAL initDB opens are probed on every run (several fresh connections of
+   state.cacheDB), and coq/obl/Obl_C15.v proves [transactional] / [power_safe] of the probed values. *)
+From Coq Require Import String.
+From KM Require Import Model.StorageJournal Proofs.StorageJournal.
+
+(* with a file journal or a WAL the daemon is the daemon of Model/Storage.v — for a failed statement and for a
+   killed process, whatever the synchronous level, whatever the environment would do without a journal *)
+Theorem c15_journal_transparent : forall j sy i mix, transactional j = true -> i <> IPower ->
+  forall s o, step_j j sy i mix s o = step s o.
+Proof. exact journal_transparent. Qed.
+Print Assumptions c15_journal_transparent.
+
+(* c15_atomic with its precondition named: IF the cache connection is transactional (and, for a machine
+   that goes down, its synchronous level is at least NORMAL) THEN for every state, every fault and every
+   environment the cache afterwards is the old or the new content, the primary is untouched, reported
+   success = the new content, reported failure = the old content *)
+Theorem c15_atomic_journal : forall j sy i mix,
+  transactional j = true -> (i <> IPower \/ power_safe j sy = true) ->
+  forall s f,
+  (cache (fst (step_j j sy i mix s (Sync f))) = cache s \/
+   cache (fst (step_j j sy i mix s (Sync f))) = cache (fst (step_j j sy i mix s (Sync None)))) /\
+  primary (fst (step_j j sy i mix s (Sync f))) = primary s /\
+  (snd (step_j j sy i mix s (Sync f)) = OSync true ->
+   cache (fst (step_j j sy i mix s (Sync f))) = cache (fst (step_j j sy i mix s (Sync None)))) /\
+  (snd (step_j j sy i mix s (Sync f)) = OSync false -> cache (fst (step_j j sy i mix s (Sync f))) = cache s).
+Proof. exact atomic_journal. Qed.
+Print Assumptions c15_atomic_journal.
+
+(* NOT the code (the kind of change seed C15-H makes): journal_mode = off.  Three users changed since the
+   last copy; the third insert fails (statement 11), the process lives, the copy reports the failure.
+   Once the transaction no longer fits the page cache ([spilled 3]: rows are written to the file as the
+   transaction goes) the cache holds NEITHER the old NOR the new content (user 3 is gone, user 1 is new);
+   while it fits ([spilled 100]) the roll-back happens to work — small databases show nothing; with a
+   journal the old content stays for EVERY environment; un-faulted copies are the same in all modes *)
+Theorem c15_no_journal_refuted :
+  (let r := step_j JOff 2 IStmt (spilled 3) nj_state (Sync nj_fault) in
+   snd r = OSync false /\ cache (fst r) <> cache nj_state /\
+   cache (fst r) <> cache (fst (step nj_state (Sync None))) /\
+   aget ukey_eqb 3%N (profiles (cache (fst r))) = None /\
+   aget ukey_eqb 1%N (profiles (cache (fst r))) = Some 11%N) /\
+  cache (fst (step_j JOff 2 IStmt (spilled 100) nj_state (Sync nj_fault))) = cache nj_state /\
+  (forall mix, cache (fst (step_j JDelete 2 IStmt mix nj_state (Sync nj_fault))) = cache nj_state) /\
+  step_j JOff 2 IStmt (spilled 3) nj_state (Sync None) = step nj_state (Sync None).
+Proof. exact no_journal_refuted. Qed.
+Print Assumptions c15_no_journal_refuted.
+
+(* the two weaker settings: journal_mode = memory restores after a failed statement (any environment) but
+   not after the process was killed; a file journal with synchronous = off restores after both but not
+   after a power loss; with synchronous >= normal it restores always *)
+Theorem c15_weak_journal_refuted :
+  (forall mix, cache (fst (step_j JMemory 2 IStmt mix nj_state (Sync nj_fault))) = cache nj_state) /\
+  (let r := step_j JMemory 2 IKill (spilled 3) nj_state (Sync nj_fault) in
+   cache (fst r) <> cache nj_state /\ cache (fst r) <> cache (fst (step nj_state (Sync None)))) /\
+  (forall mix i, i <> IPower -> cache (fst (step_j JDelete 0 i mix nj_state (Sync nj_fault))) = cache nj_state) /\
+  (let r := step_j JDelete 0 IPower (spilled 3) nj_state (Sync nj_fault) in
+   cache (fst r) <> cache nj_state /\ cache (fst r) <> cache (fst (step nj_state (Sync None)))) /\
+  (forall mix i, cache (fst (step_j JDelete 1 i mix nj_state (Sync nj_fault))) = cache nj_state).
+Proof. exact weak_journal_refuted. Qed.
+Print Assumptions c15_weak_journal_refuted.
+
+(* which journal modes are transactional *)
+Example c15_journal_modes :
+  map transactional [JDelete; JTruncate; JPersist; JWal; JMemory; JOff] = [true; true; true; true; false; false] /\
+  map jmode_of_string ["delete"; "truncate"; "persist"; "wal"; "memory"; "off"; "OFF"]%string =
+  [Some JDelete; Some JTruncate; Some JPersist; Some JWal; Some JMemory; Some JOff; None] /\
+  power_safe JDelete 0 = false /\ power_safe JWal 1 = true /\ power_safe JOff 2 = false.
+Proof. vm_compute. repeat split; reflexivity. Qed.
